@@ -89,38 +89,40 @@ func runC13(c *Ctx) {
 	R.Rule("R-status-emit", "E4 value flow", "each emission loop ranges over the recipients, takes the status from entry i of this transaction's collector via dataErrorToStatus and names recipient i", 2)
 	nEmit := 0
 	for _, fn := range []string{"(*Conn).handleDataLMTP", "(*Conn).handleBdat"} {
-		f := c.A.Func(fn)
-		if f == nil {
+		f0 := c.A.Func(fn)
+		if f0 == nil {
 			continue
 		}
-		for _, li := range findLoops(f) {
-			if !li.overRc {
-				continue
-			}
-			for b := range li.blocks {
-				for _, in := range b.Instrs {
-					if !isStaticCall(in, "(*Conn).writeResponse") {
-						continue
+		for _, f := range c.withHelpers(f0) {
+			for _, li := range findLoops(f) {
+				if !li.overRc {
+					continue
+				}
+				for b := range li.blocks {
+					for _, in := range b.Instrs {
+						if !isStaticCall(in, "(*Conn).writeResponse") {
+							continue
+						}
+						nEmit++
+						cc := callCommon(in)
+						code := describe(cc.Args[1])
+						text := describeVarargs(cc.Args[3])
+						coll := "(*Conn).createStatusCollector(param0)"
+						if fn == "(*Conn).handleBdat" {
+							coll = "Conn.bdatStatus"
+						}
+						collV, idxV := recvStatusIdx(cc.Args[1])
+						ok := collV != nil && describe(collV) == coll
+						why := "reply code is " + code + " (collector " + describe(collV) + ")"
+						if ok {
+							idx := describe(idxV)
+							base := strings.TrimSuffix(code, "#0")
+							want := `((("<" + Conn.recipients[` + idx + `]) + "> ") + ` + base + `#2)`
+							ok = text == want && strings.HasPrefix(idx, "(loopvar:rangeindex")
+							why = "reply text is " + text + ", want " + want
+						}
+						R.Ob(c.siteKey(in, "per-recipient reply attribution"), c.P.InstrPos(in), ok, why)
 					}
-					nEmit++
-					cc := callCommon(in)
-					code := describe(cc.Args[1])
-					text := describeVarargs(cc.Args[3])
-					coll := "(*Conn).createStatusCollector(param0)"
-					if fn == "(*Conn).handleBdat" {
-						coll = "Conn.bdatStatus"
-					}
-					collV, idxV := recvStatusIdx(cc.Args[1])
-					ok := collV != nil && describe(collV) == coll
-					why := "reply code is " + code + " (collector " + describe(collV) + ")"
-					if ok {
-						idx := describe(idxV)
-						base := strings.TrimSuffix(code, "#0")
-						want := `((("<" + Conn.recipients[` + idx + `]) + "> ") + ` + base + `#2)`
-						ok = text == want && strings.HasPrefix(idx, "(loopvar:rangeindex")
-						why = "reply text is " + text + ", want " + want
-					}
-					R.Ob(c.siteKey(in, "per-recipient reply attribution"), c.P.InstrPos(in), ok, why)
 				}
 			}
 		}
@@ -231,6 +233,43 @@ func runC13(c *Ctx) {
 			c.obUnreach("send", site, `statusCollector.statusMap[param1] == nil`)
 		}
 	}
+	ruleFillShape(c)
+	ruleGoCapture(c)
+}
+
+// recvStatusIdx matches dataErrorToStatus(<-X.status[i])#0 and returns X, i.
+func recvStatusIdx(v ssa.Value) (coll, idx ssa.Value) {
+	ex, ok := v.(*ssa.Extract)
+	if !ok || ex.Index != 0 {
+		return nil, nil
+	}
+	call, ok := ex.Tuple.(*ssa.Call)
+	if !ok || staticCallee(&call.Call) == nil || qualFuncName(staticCallee(&call.Call)) != "dataErrorToStatus" {
+		return nil, nil
+	}
+	rc, ok := call.Call.Args[0].(*ssa.UnOp)
+	if !ok || rc.Op.String() != "<-" {
+		return nil, nil
+	}
+	ld, ok := rc.X.(*ssa.UnOp) // load of &status[i]
+	if !ok {
+		return nil, nil
+	}
+	ia, ok := ld.X.(*ssa.IndexAddr)
+	if !ok {
+		return nil, nil
+	}
+	fld, base := loadedField(ia.X)
+	if fld == nil || fld.Name() != "status" {
+		return nil, nil
+	}
+	return base, ia.Index
+}
+
+// ruleFillShape (C13, C04): fillRemaining gives every recipient channel as many statuses as it has room for, so
+// that every occurrence of a recipient gets its reply.
+func ruleFillShape(c *Ctx) {
+	R := c.R
 	if f := c.A.Func("(*statusCollector).fillRemaining"); f != nil {
 		nSel, nSend := 0, 0
 		allInstrs(f, func(in ssa.Instruction) {
@@ -264,34 +303,4 @@ func runC13(c *Ctx) {
 		})
 		R.Ob("(*statusCollector).fillRemaining/no plain send", c.P.Pos(f.Pos()), nSend == 0 && nSel == 1, fmt.Sprintf("%d plain sends, %d selects", nSend, nSel))
 	}
-	ruleGoCapture(c)
-}
-
-// recvStatusIdx matches dataErrorToStatus(<-X.status[i])#0 and returns X, i.
-func recvStatusIdx(v ssa.Value) (coll, idx ssa.Value) {
-	ex, ok := v.(*ssa.Extract)
-	if !ok || ex.Index != 0 {
-		return nil, nil
-	}
-	call, ok := ex.Tuple.(*ssa.Call)
-	if !ok || staticCallee(&call.Call) == nil || qualFuncName(staticCallee(&call.Call)) != "dataErrorToStatus" {
-		return nil, nil
-	}
-	rc, ok := call.Call.Args[0].(*ssa.UnOp)
-	if !ok || rc.Op.String() != "<-" {
-		return nil, nil
-	}
-	ld, ok := rc.X.(*ssa.UnOp) // load of &status[i]
-	if !ok {
-		return nil, nil
-	}
-	ia, ok := ld.X.(*ssa.IndexAddr)
-	if !ok {
-		return nil, nil
-	}
-	fld, base := loadedField(ia.X)
-	if fld == nil || fld.Name() != "status" {
-		return nil, nil
-	}
-	return base, ia.Index
 }
